@@ -345,10 +345,58 @@ type timingCase struct {
 	GapMs  int    `json:"gap_ms"`     // 0 = same read
 	Hook   string `json:"hook,omitempty"`
 	End    string `json:"end,omitempty"` // for schedule cases: next | eof | close
+	// Repeat > 0: the (before, ESC, silence) part is delivered Repeat+1 times
+	// on the same parser before After: every lone ESC must be reported
+	Repeat int `json:"repeat,omitempty"`
+}
+
+// evalRepeated: several lone ESC keys, each followed by silence, on one parser.
+func evalRepeated(tc timingCase) (key, detail, observed, expected string) {
+	before, _ := hex.DecodeString(tc.Before)
+	after, _ := hex.DecodeString(tc.After)
+	first := append(append([]byte(nil), before...), 0x1b)
+	var data []byte
+	var chunks []int
+	gapAt := map[int]bool{}
+	var want []rune
+	for i := 0; i <= tc.Repeat; i++ {
+		data = append(data, first...)
+		chunks = append(chunks, len(first))
+		gapAt[len(data)] = true
+		want = append(want, refparse.Decode(first)...)
+		want = append(want, refparse.TimeoutRune)
+	}
+	data = append(data, after...)
+	want = append(want, refparse.Decode(after)...)
+	rd := &parserun.Reader{Data: data, Chunks: chunks}
+	gap := time.Duration(tc.GapMs) * time.Millisecond
+	rd.Gate = func(readNo int, off int) {
+		if gapAt[off] {
+			time.Sleep(gap)
+		}
+	}
+	obs := parserun.Run(rd, true, 60*time.Second)
+	if obs.Hung {
+		return "lifecycle:no-close-within-bound", "parser did not close", "", ""
+	}
+	show := func(ts []refparse.Tok) string {
+		var l []string
+		for _, t := range ts {
+			l = append(l, t.String())
+		}
+		return strings.Join(l, " ")
+	}
+	if !refparse.Match(want, obs.Toks, nil).OK {
+		return "timing:later-lone-escape-not-reported", fmt.Sprintf("%d lone ESC keys, each followed by %dms of silence, on one parser: every one must be reported as Escape and the following byte parsed from ground", tc.Repeat+1, tc.GapMs), show(obs.Toks), show(refparse.Expected(want))
+	}
+	return "", "", "", ""
 }
 
 // evalTiming feeds before+ESC, waits gap, feeds after, then EOF.
 func evalTiming(tc timingCase) (key, detail, observed, expected string) {
+	if tc.Repeat > 0 {
+		return evalRepeated(tc)
+	}
 	before, _ := hex.DecodeString(tc.Before)
 	after, _ := hex.DecodeString(tc.After)
 	first := append(append([]byte(nil), before...), 0x1b)
@@ -421,6 +469,9 @@ func runTimingBatch(w *harness.W, r gen.R, n int) {
 	for i := 0; i < n; i++ {
 		gap := []int{0, 0, 150, 200, 300, 2, 5, 9, 11, 20, 40}[r.Intn(11)]
 		tc := timingCase{Before: hex.EncodeToString([]byte(befores[r.Intn(len(befores))])), After: hex.EncodeToString([]byte(afters[r.Intn(len(afters))])), GapMs: gap}
+		if i%5 == 4 {
+			tc.GapMs, tc.Repeat = 150+50*r.Intn(3), 1+r.Intn(3)
+		}
 		cases = append(cases, tc)
 	}
 	w.Begin("timing batch (parallel)")
